@@ -445,6 +445,8 @@ func runCase(cs *Case, ci int, pty *ptyPair, em *emu, home string) (alive bool) 
 			rl.Keymap.SetMain(su.Mode)
 		}
 	}
+	// drops a pending numeric argument (so that an experiment's second command starts without one)
+	probes["probe-noarg"] = func() { rl.Iterations.Reset() }
 	rl.Keymap.Register(probes)
 	for _, b := range cs.Binds {
 		rl.Config.Bind(b.Km, string(unhex(b.Seq)), b.Act, b.Macro)
@@ -459,6 +461,7 @@ func runCase(cs *Case, ci int, pty *ptyPair, em *emu, home string) (alive bool) 
 				}
 			}
 			rl.Config.Bind(km, "\x1c", "probe-setup", false)
+			rl.Config.Bind(km, "\x1e~~", "probe-noarg", false)
 		}
 	}
 
